@@ -4,6 +4,7 @@ import (
 	"fmt"
 	"go/constant"
 	"go/token"
+	"go/types"
 	"sort"
 
 	"golang.org/x/tools/go/ssa"
@@ -402,4 +403,172 @@ func init() {
 	txt := registry["C05"].Meta.Rules["C05.11"]
 	registry["C08"].Meta.Rules["C08.12"] = txt + "; a signed operand is also proven non-negative (an 8-byte LZF match sent to the long form has its length byte computed as byte(8-9) = 255) (shared with C05.11)"
 	registry["C08"].Rules = append(registry["C08"].Rules, func(c *Ctx, r *Result) { narrowingRule(c, r, "C08.12") })
+}
+
+// ---- positions recorded by a parsing loop are not write addresses (C10.10) ----
+//
+// A field whose only non-constant stores take the value of a parsing loop's cursor (a loop-carried position, not a value decoded
+// from the file) records where something stood in the structure as it was parsed. Nothing on the writing side maintains such a
+// field (that is how it is found: no store outside the read path), so once the structure is changed through a cached copy - a
+// message added, removed or resized - the recorded position is stale. A file write addressed by such a field patches bytes at
+// the place where the thing used to be.
+
+func valueClass(v ssa.Value, d int, seen map[ssa.Value]bool) (decoded, loopCarried bool) {
+	if d > 12 || seen[v] {
+		return
+	}
+	seen[v] = true
+	switch x := v.(type) {
+	case *ssa.Call:
+		return true, false // a result computed elsewhere (byte-order decoding, helpers): treated as decoded
+	case *ssa.Extract:
+		return true, false
+	case *ssa.UnOp:
+		if x.Op == token.MUL {
+			return true, false // loaded from memory
+		}
+		return valueClass(x.X, d+1, seen)
+	case *ssa.BinOp:
+		d1, l1 := valueClass(x.X, d+1, seen)
+		d2, l2 := valueClass(x.Y, d+1, seen)
+		return d1 || d2, l1 || l2
+	case *ssa.Convert:
+		return valueClass(x.X, d+1, seen)
+	case *ssa.ChangeType:
+		return valueClass(x.X, d+1, seen)
+	case *ssa.Phi:
+		isHdr := false
+		for _, p := range x.Block().Preds {
+			if x.Block().Dominates(p) {
+				isHdr = true
+			}
+		}
+		if isHdr {
+			// a cursor: every value that comes round the loop is the cursor itself advanced by something
+			var advanced func(e ssa.Value, d int) bool
+			advanced = func(e ssa.Value, d int) bool {
+				if e == ssa.Value(x) {
+					return true
+				}
+				if d > 8 {
+					return false
+				}
+				switch y := e.(type) {
+				case *ssa.BinOp:
+					return y.Op == token.ADD && (advanced(y.X, d+1) || advanced(y.Y, d+1))
+				case *ssa.Phi:
+					if y.Block() == x.Block() {
+						return false
+					}
+					for _, e2 := range y.Edges {
+						if !advanced(e2, d+1) {
+							return false
+						}
+					}
+					return true
+				}
+				return false
+			}
+			cur := true
+			for i, e := range x.Edges {
+				if x.Block().Dominates(x.Block().Preds[i]) && !advanced(e, 0) {
+					cur = false
+				}
+			}
+			if cur {
+				return false, true
+			}
+		}
+		dec := false
+		lc := isHdr
+		for _, e := range x.Edges {
+			d1, l1 := valueClass(e, d+1, seen)
+			dec = dec || d1
+			lc = lc || l1
+		}
+		return dec, lc
+	}
+	return
+}
+
+func (c *Ctx) cursorPositionFields(r *Result) map[string]string {
+	if v, ok := c.cache["cursorfields"].(map[string]string); ok {
+		return v
+	}
+	readers := c.readerSet(r)
+	cursor := map[string]string{}
+	other := map[string]bool{}
+	for _, fn := range c.LibFuncs() {
+		for _, fs := range c.DirectFieldStores(fn) {
+			if fs.Fn != fn || fs.Val == nil || fs.Kind != "set" {
+				continue
+			}
+			bt, ok := fs.Val.Type().Underlying().(*types.Basic)
+			if !ok || bt.Info()&types.IsInteger == 0 {
+				continue
+			}
+			if _, isK := fs.Val.(*ssa.Const); isK {
+				continue
+			}
+			dec, lc := valueClass(fs.Val, 0, map[ssa.Value]bool{})
+			if readers[fn] && lc && !dec {
+				if _, seen := cursor[fs.Key]; !seen {
+					cursor[fs.Key] = c.InstrPos(fs.In)
+				}
+			} else {
+				other[fs.Key] = true
+			}
+		}
+	}
+	for k := range other {
+		delete(cursor, k)
+	}
+	c.cache["cursorfields"] = cursor
+	return cursor
+}
+
+func parsePositionRule(c *Ctx, r *Result, rule string) {
+	fields := c.cursorPositionFields(r)
+	for _, k := range sortedKeys(fields) {
+		r.Notef("%s: position field %s (recorded at %s)", rule, k, fields[k])
+	}
+	n := 0
+	for _, fn := range c.LibFuncs() {
+		for _, site := range callsIn(fn) {
+			com := site.Common()
+			name := ""
+			if com.IsInvoke() {
+				name = com.Method.Name()
+			} else if f := com.StaticCallee(); f != nil {
+				name = f.Name()
+			}
+			if name != "WriteAt" && name != "WriteAtAddress" {
+				continue
+			}
+			args := com.Args
+			if len(args) == 0 {
+				continue
+			}
+			addr := args[len(args)-1]
+			n++
+			bad := ""
+			for _, k := range sortedKeys(fields) {
+				if valueReadsField(addr, k, 0) {
+					bad = k
+				}
+			}
+			cons := fmt.Sprintf("%s#%s@%s", c.Name(fn), name, c.InstrPos(site.(ssa.Instruction)))
+			if bad != "" {
+				r.Viol(rule, c.Name(fn)+"#write-addressed-by-"+bad, c.InstrPos(site.(ssa.Instruction)), "the write address is computed from "+bad+", a position recorded by the parsing loop at "+fields[bad]+" and maintained nowhere on the writing side: after a message was added, removed or resized through the cached header it no longer says where the message is")
+			} else {
+				_ = cons
+			}
+		}
+	}
+	r.Check(len(fields) > 0 && n >= 40, rule, "file-writes#not-addressed-by-parse-positions", "", fmt.Sprintf("%d WriteAt/WriteAtAddress call sites examined against %d parse-position fields; none is addressed by one", n, len(fields)))
+}
+
+func init() {
+	registry["C10"].Meta.Rules["C10.10"] = "a position recorded while parsing is not a write address: a field whose only non-constant stores take the cursor of a parsing loop (not a value decoded from the file) and that nothing on the writing side maintains is stale as soon as the structure is changed through a cached copy; no WriteAt/WriteAtAddress address is computed from such a field (an in-place patch at HeaderMessage.Offset writes where the message used to be - or at address 4 for a message added in memory)"
+	registry["C10"].Rules = append(registry["C10"].Rules, func(c *Ctx, r *Result) { parsePositionRule(c, r, "C10.10") })
 }
